@@ -55,6 +55,19 @@ class U1:
         return f"U1({self.i})"
 
 
+class U1b(U1):
+    """a subclass of a user class: its instances are typed by their OWN class - mixed with instances of the base they
+    make an object column, in either order (inference is order-independent)"""
+    def __eq__(self, o):
+        return type(o) is U1b and o.i == self.i
+
+    def __hash__(self):
+        return hash(("U1b", self.i))
+
+    def __repr__(self):
+        return f"U1b({self.i})"
+
+
 class U2:
     def __init__(self, i=0):
         self.i = i
@@ -163,6 +176,8 @@ def dec(t):
         return U1(t[1] if len(t) > 1 else 0)
     if k == "U2":
         return U2(t[1] if len(t) > 1 else 0)
+    if k == "U1b":
+        return U1b(t[1] if len(t) > 1 else 0)
     if k == "O":
         return object()
     if k == "l":
@@ -215,6 +230,8 @@ def enc(x):
         return ["U1", x.i]
     if ty is U2:
         return ["U2", x.i]
+    if ty is U1b:
+        return ["U1b", x.i]
     if ty is object:
         return ["O"]
     if ty is NC:
@@ -239,7 +256,7 @@ _TAG_KIND = {
     "l": ("KList", True), "t": ("KTuple", True), "D": ("KDict", True),
     "Dec": ("(KOther 0)", True), "Fr": ("(KOther 1)", True), "td": ("(KOther 2)", True),
     "U1": ("(KOther 3)", True), "U2": ("(KOther 4)", True), "O": ("KObject", True),
-    "NC": ("(KOther 5)", True),
+    "NC": ("(KOther 5)", True), "U1b": ("(KOther 6)", True),
 }
 
 
@@ -267,7 +284,7 @@ def kind_token_of_type(ty):
             bytes: "KBytes", _dt.datetime: "KDateTime", _dt.date: "KDate", list: "KList",
             dict: "KDict", tuple: "KTuple", decimal.Decimal: "(KOther 0)",
             fractions.Fraction: "(KOther 1)", _dt.timedelta: "(KOther 2)", U1: "(KOther 3)",
-            U2: "(KOther 4)", object: "KObject", NC: "(KOther 5)",
+            U2: "(KOther 4)", object: "KObject", NC: "(KOther 5)", U1b: "(KOther 6)",
             # subclasses used as kinds would be a defect; give them their own tokens
             F: "(KOther 10)", S: "(KOther 11)", IE: "(KOther 12)", I2: "(KOther 13)", DT2: "(KOther 14)",
         }
